@@ -433,10 +433,10 @@ def sec_hosts(cx, tier, seed, param):
     platform, form = param
     S = R.SPEC[platform]
     D = 2 if tier == "quick" else 3
-    vocab = S["vocab"]
-    for host in [S["host"]] + (S["alt_hosts"][:2] if tier == "quick" else S["alt_hosts"]):
+    vocab = S["vocab"] + S["extra_vocab"]
+    for ih, host in enumerate([S["host"]] + (S["alt_hosts"][:2] if tier == "quick" else S["alt_hosts"])):
         base = form % host
-        for d in range(0, D + 1):
+        for d in range(0, (D if ih < 2 else 2) + 1):
             for t in itertools.product(vocab, repeat=d):
                 p = ("/" + "/".join(t)) if t else ""
                 for pp in ((p, p + "/") if d < 3 else (p,)):
@@ -463,12 +463,12 @@ def sec_relative(cx, tier, seed, param):
     first = param
     S = R.SPEC["facebook"]
     D = 3 if tier == "quick" else 4
-    vocab = S["vocab"]
+    vocab = S["vocab"] + S["extra_vocab"]
     tuples = [()] if first is None else itertools.chain.from_iterable(
         (((first,) + rest) for rest in itertools.product(vocab, repeat=d)) for d in range(0, D))
     for t in tuples:
         p = "/".join(t)
-        for lead in ("/", ""):
+        for lead in (("/", "") if len(t) < 4 else ("/",)):
             for trail in ("", "/"):
                 for deco in S["decos"] + (["?id=5"] if tier == "quick" else ["?story_fbid=4", "?id=5", "#f"]):
                     check_platform(cx, "facebook", lead + p + trail + deco)
@@ -506,14 +506,14 @@ def sec_affix(cx, tier, seed, param):
     functions; plus host + route + suf for the platform's one-word routes (suf <= 2)"""
     platform, host = param
     pres = list(short_strings(R.SHORT_ALPHA, 2))
-    sufs = list(short_strings(R.SHORT_ALPHA, 2 if tier == "quick" else 3))
+    sufs = list(short_strings(R.SHORT_ALPHA, 3 if (tier != "quick" and host == R.SPEC[platform]["host"]) else 2))
     for pre in pres:
         for suf in sufs:
             if tier == "quick" and len(pre) == 2 and len(suf) == 2:
                 continue
             check_platform(cx, platform, pre + host + suf, nontriv=False)
     sufs2 = list(short_strings(R.SHORT_ALPHA, 2))
-    for w in R.SPEC[platform]["vocab"]:
+    for w in R.SPEC[platform]["vocab"] + R.SPEC[platform]["extra_vocab"]:
         if not w:
             continue
         for suf in sufs2:
@@ -526,8 +526,8 @@ def sec_random(cx, tier, seed, param):
     platform, k = param
     rnd = random.Random("%s/%s/%s" % (seed, platform, k))
     S = R.SPEC[platform]
-    n = 1500 if tier == "quick" else 40000
-    vocab = S["vocab"] + R.EXTRA_SEGMENTS
+    n = 1500 if tier == "quick" else 25000
+    vocab = S["vocab"] + S["extra_vocab"] + R.EXTRA_SEGMENTS
     for i in range(n):
         form = rnd.choice(R.HOST_FORMS)
         host = rnd.choice([S["host"]] * 3 + S["alt_hosts"])
@@ -556,7 +556,7 @@ def sec_validators(cx, tier, seed, param):
     for s in short_strings(R.VALIDATOR_ALPHA, L):
         check_validators(cx, s)
     for p in PLATFORMS:
-        for w in R.SPEC[p]["vocab"]:
+        for w in R.SPEC[p]["vocab"] + R.SPEC[p]["extra_vocab"]:
             check_validators(cx, w)
 
 
@@ -579,7 +579,7 @@ def make_jobs(tier, seed):
             jobs.append(("affix", tier, seed, (p, host)))
         for k in range(4):
             jobs.append(("random", tier, seed, (p, k)))
-    for first in [None] + R.SPEC["facebook"]["vocab"]:
+    for first in [None] + R.SPEC["facebook"]["vocab"] + R.SPEC["facebook"]["extra_vocab"]:
         jobs.append(("relative", tier, seed, first))
     for first in [None] + list(R.SHORT_ALPHA):
         jobs.append(("short", tier, seed, first))
@@ -670,16 +670,18 @@ def main():
         "fragments": dict((p, R.SPEC[p]["frags"]) for p in PLATFORMS),
         "relative_facebook_path_segments": 3 if a.tier == "quick" else 4,
         "short_strings": {"alphabet": list(R.SHORT_ALPHA), "max_length": 4 if a.tier == "quick" else 5, "odd_strings": len(R.ODD_STRINGS)},
-        "affix": {"prefix_length": 2, "suffix_length": 2 if a.tier == "quick" else 3, "quick": "prefix + suffix length <= 3"},
-        "random_per_platform": 4 * (1500 if a.tier == "quick" else 40000),
+        "affix": {"prefix_length": 2, "suffix_length": 2 if a.tier == "quick" else "3 around the main host, 2 around two alternative hosts",
+                  "quick": "prefix + suffix length <= 3"},
+        "random_per_platform": 4 * (1500 if a.tier == "quick" else 25000),
+        "extra_vocabulary (host / relative / random sections)": dict((p, R.SPEC[p]["extra_vocab"]) for p in PLATFORMS),
         "flags": ["allow_relative_urls x {False, True}", "fix_common_mistakes x {True, False}"],
     }
     col.rule = (
         "per platform (facebook, youtube, twitter, instagram, telegram, google): every path of 0..%d segments over the platform's "
-        "route vocabulary + id-like / handle-like / too-short / too-long / empty segments (12-19 tokens), with and without trailing "
+        "route vocabulary + id-like / handle-like / too-short / too-long / empty segments (12-17 tokens), with and without trailing "
         "slash (full depth: with it only), bare and with query/fragment decorations (up to depth-1), on the platform's main host(s) (youtu.be and twitter '#!' fragment routing "
         "up to depth %d); %d host forms (schemes, //, www/m, userinfo, port, upper case, leading space, look-alike and foreign hosts, "
-        "host inside path/query) x alternative platform domains x paths of 0..%d segments; routes x every sequence of 0..3 query "
+        "host inside path/query) x alternative platform domains x paths of 0..%d segments (thorough: 3 on the main host and its first alternative, 2 on the others) over the vocabulary + extra words; routes x every sequence of 0..3 query "
         "items over the platform's keys x fragments; relative facebook URLs; the curated truncated routes; every string of length "
         "<= %d over %r and odd strings (urlsplit-rejected ones included) on ALL functions; prefix/suffix strings around platform "
         "hosts; the validators on every string of length <= %d over %r; seeded random longer URLs.  Every parser is called with "
